@@ -257,3 +257,13 @@ def random_sched(rng):
     if k == 3:
         return {"kind": "full"}
     return {"kind": "random", "seed": rng.randrange(1 << 30), "max": 4096}
+
+
+def big_reencoded():
+    """YAML in UTF-16 whose source is well under 2 MiB and whose UTF-8 re-encoding is over 2 MiB (characters of three UTF-8
+    bytes, two UTF-16 bytes): one long scalar and one long sequence, little-endian without a byte order mark and big-endian with one."""
+    one = "k: " + "\u65e5\u672c\u8a9e" * 240000 + "\n"
+    many = "".join("- \u30c7\u30fc\u30bf%06d\u65e5\u672c\n" % i for i in range(56000))
+    out = [one.encode("utf-16-le"), b"\xfe\xff" + many.encode("utf-16-be")]
+    assert all((1 << 20) < len(x) < (2 << 20) - 4096 for x in out), [len(x) for x in out]
+    return out
